@@ -147,6 +147,20 @@ def main():
         raise ValueError("init() has %d raise statements" % k)
     g.attempt("cfg.initGuard", True, init_guard)
 
+    def query_restores():
+        hits = []
+        for name in ("is_in", "child_state"):
+            fn = find_func(P, name)
+            h = [n for n in ast.walk(fn) if isinstance(n, ast.Assign) and unparse(n.targets[0]) == "self.state_name"
+                 and unparse(n.value) == "self.state.fun.__name__"]
+            hits.append(len(h) >= 1)
+        if all(hits):
+            return True
+        if not any(hits):
+            return False
+        raise ValueError("is_in and child_state disagree about restoring state_name")
+    g.attempt("queryRestoresName", True, query_restores)
+
     # ---- emit -------------------------------------------------------------
     v = g.values
     def b(x):
@@ -163,6 +177,7 @@ def main():
         lines.append("def %s : Nat := %d" % (k, v[k]))
     lines.append("def cfg : Miros.Hsm.Cfg := { resync := %s, drillGuard := %s, initGuard := %s }" % (
         b(v["cfg.resync"]), b(v["cfg.drillGuard"]), b(v["cfg.initGuard"])))
+    lines.append("def queryRestoresName : Bool := " + b(v["queryRestoresName"]))
     lines.append("end Miros.Gen")
     text = "\n".join(lines) + "\n"
     os.makedirs(os.path.dirname(OUT), exist_ok=True)
